@@ -191,8 +191,9 @@ RunAll(x, fuel) == IF x.status # "run" \/ fuel = 0 THEN x ELSE RunAll(Step(x), f
 
 (* ----------------------------- specification ---------------------------- *)
 Load(p, mo) ==
-  [id |-> p.id, v2 |-> p.v2, mo |-> mo, prog |-> p.scripts, fuel |-> p.fuel,
-   tasks |-> <<[name |-> p.main, ctl |-> <<SeqF(p.scripts[p.main])>>, sc |-> <<EmptyScope>>,
+  [id |-> p.id, v2 |-> p.v2, mo |-> mo, fuel |-> p.fuel,
+   prog |-> [n \in DOMAIN p.scripts |-> Annotate(p.scripts[n])],     \* load-time pattern resolution
+   tasks |-> <<[name |-> p.main, ctl |-> <<SeqF(Annotate(p.scripts[p.main]))>>, sc |-> <<EmptyScope>>,
                 brk |-> FALSE, cont |-> FALSE, exit |-> FALSE]>>,
    heap |-> <<>>, pt |-> p.pt, log |-> <<>>,
    sig |-> [fired |-> FALSE, firedAt |-> -1, polls |-> 0, seen |-> FALSE, seenLog |-> 0],
